@@ -6,9 +6,10 @@ pub mod c03;
 pub mod c04;
 pub mod c05;
 pub mod c06;
+pub mod c07;
 pub mod c08;
 
-pub const PROPS: [&str; 7] = ["C01", "C02", "C03", "C04", "C05", "C06", "C08"];
+pub const PROPS: [&str; 8] = ["C01", "C02", "C03", "C04", "C05", "C06", "C07", "C08"];
 
 pub fn lanes(prop: &str) -> Vec<Lane> {
     match prop {
@@ -18,6 +19,7 @@ pub fn lanes(prop: &str) -> Vec<Lane> {
         "C04" => c04::lanes(),
         "C05" => c05::lanes(),
         "C06" => c06::lanes(),
+        "C07" => c07::lanes(),
         "C08" => c08::lanes(),
         _ => vec![],
     }
